@@ -63,8 +63,20 @@ context();
 // files
 bool
 exists(const std::string& path);
+// nullptr if the file does not exist OR is held sparsely (see below)
 const std::vector<uint8_t>*
 contents(const std::string& path);
+// Files that grow beyond 64 MiB are held sparsely (1 MiB chunks, all-zero
+// chunks are not stored), so that multi-GiB files cost what their non-zero
+// content costs.  size/read work for every file.
+bool
+is_sparse(const std::string& path);
+uint64_t
+size(const std::string& path); // UINT64_MAX if the file does not exist
+// zero-fills holes and everything beyond the end; returns true if any byte of
+// the range is backed by stored (non-hole) data
+bool
+read(const std::string& path, uint64_t off, uint64_t n, uint8_t* out);
 std::vector<std::string>
 list();
 void
